@@ -150,10 +150,31 @@ func parseGetValue(out string) map[string]string {
 }
 
 type batch struct {
-	name  string
-	idx   []int // indices into c.Obls
-	body  string
-	bytes int
+	name   string
+	idx    []int // indices into c.Obls
+	body   string
+	common string // the shared hypotheses alone (vacuity guard)
+	bytes  int
+}
+
+var (
+	commonMu    sync.Mutex
+	commonCache = map[string]bool{}
+)
+
+// commonSatisfiable: one short query on the shared hypotheses; only a definite unsat counts as vacuous.
+func commonSatisfiable(body string) bool {
+	commonMu.Lock()
+	r, ok := commonCache[body]
+	commonMu.Unlock()
+	if ok {
+		return r
+	}
+	r = quickSat(body)
+	commonMu.Lock()
+	commonCache[body] = r
+	commonMu.Unlock()
+	return r
 }
 
 // Run discharges all obligations: obligations of one Group share their Common hypotheses and are
@@ -231,6 +252,11 @@ func (c *Check) Run() {
 				continue
 			}
 			b.bytes = len(b.body)
+			// vacuity guard: the hypotheses shared by the group must be satisfiable
+			func() {
+				defer func() { recover() }()
+				b.common = (&Script{Asserts: []*Term{And(first.Common...)}}).Render(allAxioms)
+			}()
 			batches = append(batches, b)
 		}
 	}
@@ -250,6 +276,13 @@ func (c *Check) Run() {
 				}
 			}
 			br := solveBatch(c.WorkDir, b.name, b.body, len(b.idx), to, c.NeedTwo)
+			if b.common != "" && !commonSatisfiable(b.common) {
+				for _, i := range b.idx {
+					c.Results[i].Status = "engine-error"
+					c.Results[i].Output = "vacuous: the hypotheses shared by this group of obligations are unsatisfiable"
+				}
+				return
+			}
 			for n, i := range b.idx {
 				r := c.Results[i]
 				o := r.Ob
